@@ -28,6 +28,8 @@ func init() {
 			{ID: "C14.R8", Text: "a reserved-key event reaches the stream as the document event it is: no event wrapper is built outside the handler of its kind, so it cannot be turned into a dirtying seqno-advanced event before the prefix test (same rule as C03.R4)", Run: c03r4},
 			{ID: "C14.R9", Text: "a save clears every mark it wrote: the dirty set is cleared as a whole, after and only under err==nil of the store call — a position moved by a reserved-key event during the save cannot keep its vBucket flagged (same rule as C05.R4)", Run: c05r4},
 			{ID: "C14.R10", Text: "group names are judged as configured: defaulting never rewrites a configured group name, so the separator check sees what the operator wrote (same rule as C17.R1)", Run: c17r1},
+			{ID: "C14.R11", Text: "a reserved-key event reaches the branch that absorbs it: the listener hands every document event on under no predicate of its own (same rule as C03.R2)", Run: c03r2},
+			{ID: "C14.R12", Text: "and it gets there at once: one synchronous call chain per event from the observer to the listener, nothing parked (same rule as C03.R1)", Run: c03r1},
 			{ID: "C14.R4", Text: "getCheckpointID: result = Prefix + groupName + const + Itoa(vbID); panics ⇔ groupName contains '.'", Run: c14r4},
 		},
 	})
